@@ -78,6 +78,7 @@ T = [
     ("del-between-indicators", 1, 10, 3, 0, [IN("xy\U0001F1FA\x7f\x7f\U0001F1F8" + "a\u200d\x7f" + "b")], False),
     ("mode-combos", 0, 6, 3, 0, [IN(E + "[3;3H" + E + "[?1049;7h" + "abcdefgh" + E + "[6n" + E + "[?1049;1049l" + E + "[6n" + E + "[?25;1049;1049h" + "x" + E + "[?7;1049l" + "ijklmnop")], True),
     ("osc-4096", 0, 10, 3, 0, [IN("a" + E + "]0;" + "t" * 4096 + E + "\\" + "b" + E + "]2;" + "u" * 4097 + "\x07" + "c" + E + "P" + "q" * 4095 + E + "\\" + "d")], False),
+    ("su-empty-first-param", 0, 4, 3, 0, [IN("a\r\nb\r\nc" + E + "[;2S" + E + "[;S" + E + "[0S" + E + "[S" + E + "[;2T" + E + "[;2M" + E + "[;L")], True),
     ("kf-merge-changes-width", 1, 12, 3, 1, [IN("❤"), IN("️"), IN("x")], False),
     ("kf-merge-narrows", 1, 12, 3, 1, [IN("\U0001F600"), IN("︎"), IN("x")], False),
     ("kf-zwj-force-merge", 1, 12, 3, 1, [IN("a"), IN("‍"), IN("bc")], False),
